@@ -8,7 +8,7 @@ from ..cfg import NORMAL, Node
 from ..core import Ctx
 from ..flow import ALL, find_path, names_in
 from ..model import AnalysisError, FunctionInfo, dotted, norm_text
-from .common import edge_target, effective_test, explore, handler_exits, null_edges, eval3, kwarg, path_arg, reachable_from, str_consts
+from .common import judged_in_callers, edge_target, effective_test, explore, handler_exits, null_edges, eval3, kwarg, path_arg, reachable_from, str_consts
 
 EXPLANATION = (
     "Static analysis of the in-flight marker protocol: (R1) dominance + def-use: every write of a data file, manifest "
@@ -39,6 +39,63 @@ def check(ctx: Ctx) -> None:
     from .c20 import r5 as c20_r5
     c20_r5(ctx, "C06.R6")
     r_honoured(ctx, "C06.R7")
+    # markers are removed by their owning transaction (or by the collector once expired) - nobody else
+    from .c09 import r3 as c09_r3
+    ctx.shared(c09_r3, "C09.R3", "C06.R8", "a sweep that removes another transaction's marker or file un-protects a live commit")
+    # the collector decides on the metadata it reads from storage AFTER the markers: a remembered / cached metadata view is older
+    from .c10 import r7 as c10_r7
+    ctx.shared(c10_r7, "C10.R7", "C06.R9", "the collector's metadata read is never served from a cache")
+    data_writes_protected(ctx, "C06.R10")
+
+
+def data_writes_protected(ctx: Ctx, rid: str) -> None:
+    ctx.rule(rid, "every data-file production site is protected like append_data: each call (from outside data_operations) of a "
+             "function that constructs a DataFileWriter is dominated by _register_inflight(<the same path>), the registration "
+             "failure propagates, and - the marker being named after the file's basename - a site inside a loop draws the name's "
+             "uuid inside that loop (one marker per file, not one per call)", 1)
+    producers = {f.qname for f in ctx.prog.functions.values() if f.module.short == "data_operations" and not isinstance(f.node, ast.Lambda)
+                 and any(n.callee and n.callee.kind == "ctor" and n.callee.cls and n.callee.cls.name == "DataFileWriter" for n in ctx.cfg(f).calls())}
+    if not producers:
+        raise AnalysisError("no DataFileWriter construction found in data_operations")
+    n_sites = 0
+    for f in sorted(ctx.prog.functions.values(), key=lambda x: x.qname):
+        if isinstance(f.node, ast.Lambda) or f.module.short == "data_operations" or judged_in_callers(ctx, f):
+            continue
+        g = ctx.cfg(f)
+        sites = [n for n in g.calls() if n.id in g.reachable() and any(t.qname in producers for t in ctx.eff.callees(f, n))]
+        if not sites:
+            continue
+        dom = ctx.dom(f, NORMAL)
+        regs = [n for n in g.calls() if any(t.name == "_register_inflight" for t in ctx.eff.callees(f, n))]
+        sl = ctx.slicer(f)
+        for w in sites:
+            n_sites += 1
+            parg = kwarg(w.ast, "file_path", 0)
+            pv = names_in(parg) if parg is not None else set()
+            mine = [r for r in regs if r.id in dom[w.id] and pv & names_in(path_arg(r))]
+            ok = bool(mine)
+            why = "_register_inflight(path) dominates the write of the same path"
+            if not mine:
+                why = ("no _register_inflight call for this path dominates the write: a collection running before the commit "
+                       "deletes the file (a marker written by hand is not what the collector's _marker_target reads)")
+            for r in mine:
+                esc, _ = ctx.eff.propagate(f, {"Exception"}, r.frames, record=False)
+                if not esc:
+                    ok, why = False, "a failed marker write is swallowed: the file would be written unprotected"
+            loops = [fr.node for fr in w.frames if fr.kind == "loop"]
+            if ok and loops:
+                inner = loops[-1]
+                org = sl.origins(parg, w.id)
+                fresh_nodes = [g.nodes[d] for d in org["nodes"] if g.nodes[d].ast is not None and any(
+                    isinstance(x, ast.Call) and (dotted(x.func) or "").endswith("uuid4") for x in ast.walk(g.nodes[d].ast))]
+                inline_fresh = any(isinstance(x, ast.Call) and (dotted(x.func) or "").endswith("uuid4") for x in ast.walk(parg)) if parg is not None else False
+                in_loop = inline_fresh or any(any(fr.kind == "loop" and fr.node is inner for fr in d.frames) for d in fresh_nodes)
+                if not in_loop:
+                    ok, why = False, ("the file names of all iterations share one uuid drawn outside the loop: files with equal "
+                                      "basenames share ONE marker (named after the basename), which protects only the last of them")
+            ctx.ob(rid, f, "data-file write is marker-protected", w, ok, why)
+    ctx.ob(rid, None, "data-file production sites enumerated", None, n_sites >= 1, f"{n_sites} site(s), producers {sorted(producers)}",
+           nontrivial=False)
 
 
 def r1(ctx: Ctx, rid: str) -> None:
